@@ -41,7 +41,7 @@ fn window_ok<const N: usize>(pref: &[u32; N], n: usize, target: u32, left: usize
     }
 }
 
-// @vt prop=C30 tier=quick feat=sp bound="scalar prefix search: every page of 0..=12 slots with arbitrary sorted 32-bit prefixes (ties of any length), every probe prefix" outside="more than 12 slots (thorough: 20)" timeout=900 mem=16
+// @vt prop=C30 tier=quick feat=sp bound="scalar prefix search: every page of 0..=12 slots with arbitrary sorted 32-bit prefixes (ties of any length), every probe prefix" outside="more than 12 slots (thorough: 20)" timeout=1800 mem=16
 vt_proof! { unwind = 14; fn c30_scalar_window_12() {
     let mut page = [0u8; PAGE_SIZE];
     let pref: [u32; 12] = kani::any();
@@ -54,7 +54,7 @@ vt_proof! { unwind = 14; fn c30_scalar_window_12() {
     window_ok(&pref, n, target, l, r);
 }}
 
-// @vt prop=C30 tier=thorough feat=sp bound="AVX2 prefix search (CPU model: AVX2): every page of 0..=12 slots with arbitrary sorted 32-bit prefixes (ties of any length, incl. across the 8-lane batch edges), every probe prefix" outside="more than 12 slots (thorough: 20)" timeout=1200 mem=16
+// @vt prop=C30 tier=thorough feat=sp bound="AVX2 prefix search (CPU model: AVX2): every page of 0..=12 slots with arbitrary sorted 32-bit prefixes (ties of any length, incl. across the 8-lane batch edges), every probe prefix" outside="more than 12 slots (thorough: 20)" timeout=1800 mem=16
 vt_proof_avx2! { unwind = 14; fn c30_avx2_window_12() {
     let mut page = [0u8; PAGE_SIZE];
     let pref: [u32; 12] = kani::any();
@@ -68,7 +68,7 @@ vt_proof_avx2! { unwind = 14; fn c30_avx2_window_12() {
     window_ok(&pref, n, target, l, r);
 }}
 
-// @vt prop=C30 tier=quick feat=sp bound="AVX2 prefix search (CPU model: AVX2): every page of 0..=10 slots with arbitrary sorted 32-bit prefixes (ties of any length, incl. at lane 0 / lane 7 of the 8-lane batch), every probe prefix" outside="more than 10 slots in the quick tier (thorough: 12 and 20)" timeout=1200 mem=16
+// @vt prop=C30 tier=quick feat=sp bound="AVX2 prefix search (CPU model: AVX2): every page of 0..=10 slots with arbitrary sorted 32-bit prefixes (ties of any length, incl. at lane 0 / lane 7 of the 8-lane batch), every probe prefix" outside="more than 10 slots in the quick tier (thorough: 12 and 20)" timeout=1800 mem=16
 vt_proof_avx2! { unwind = 12; fn c30_avx2_window_10() {
     let mut page = [0u8; PAGE_SIZE];
     let pref: [u32; 10] = kani::any();
@@ -82,7 +82,7 @@ vt_proof_avx2! { unwind = 12; fn c30_avx2_window_10() {
     window_ok(&pref, n, target, l, r);
 }}
 
-// @vt prop=C30 tier=quick feat=sp bound="find_key_simd (CPU model: AVX2) on every valid leaf of exactly 8 cells (one full batch), keys of 1..=3 arbitrary bytes, every probe of 0..=3 bytes" outside="other cell counts in the quick tier (thorough: 0..=9)" timeout=1200 mem=24
+// @vt prop=C30 tier=quick feat=sp bound="find_key_simd (CPU model: AVX2) on every valid leaf of exactly 8 cells (one full batch), keys of 1..=3 arbitrary bytes, every probe of 0..=3 bytes" outside="other cell counts in the quick tier (thorough: 0..=9)" timeout=1800 mem=24
 vt_proof_avx2! { unwind = 11; fn c30_find_key_avx2_8() { find_vs_linear_exact::<8>(); }}
 
 // ---------------------------------------------------------------- whole find_key_simd vs linear scan
@@ -137,13 +137,13 @@ fn find_vs_linear_exact<const N: usize>() {
     assert!(got == want, "role=find_key_equals_linear_scan");
 }
 
-// @vt prop=C30 tier=quick feat=sp bound="find_key_simd (CPU model: no AVX2) on every valid leaf of 0..=6 cells with keys of 1..=3 arbitrary bytes (shorter than the 4-byte slot prefix: zero-padding ties are inside), every probe of 0..=3 bytes" outside="more than 6 cells here (the windowing kernels are decided up to 12/20 slots separately); keys longer than 3 bytes" timeout=1200 mem=20
+// @vt prop=C30 tier=quick feat=sp bound="find_key_simd (CPU model: no AVX2) on every valid leaf of 0..=6 cells with keys of 1..=3 arbitrary bytes (shorter than the 4-byte slot prefix: zero-padding ties are inside), every probe of 0..=3 bytes" outside="more than 6 cells here (the windowing kernels are decided up to 12/20 slots separately); keys longer than 3 bytes" timeout=1800 mem=20
 vt_proof! { unwind = 9; fn c30_find_key_scalar_6() { find_vs_linear::<6>(); }}
 
 // @vt prop=C30 tier=thorough feat=sp bound="find_key_simd (CPU model: AVX2) on every valid leaf of 0..=9 cells (one full 8-lane batch plus one), keys of 1..=3 arbitrary bytes, every probe of 0..=3 bytes" outside="more than 9 cells here; keys longer than 3 bytes" timeout=1800 mem=24
 vt_proof_avx2! { unwind = 12; fn c30_find_key_avx2_9() { find_vs_linear::<9>(); }}
 
-// @vt prop=C30 tier=quick feat=sp bound="hand-built leaf of exactly 3 cells (keys 1..=3 bytes, values 0..=1 byte) read back through the real LeafNode accessors" outside="this validates the page builder used by the C28/C29/C30 harnesses, not the B-tree" timeout=600
+// @vt prop=C30 tier=quick feat=sp bound="hand-built leaf of exactly 3 cells (keys 1..=3 bytes, values 0..=1 byte) read back through the real LeafNode accessors" outside="this validates the page builder used by the C28/C29/C30 harnesses, not the B-tree" timeout=1800
 vt_proof! { unwind = 9; fn c30_builder_matches_real_accessors() {
     let mut page = [0u8; PAGE_SIZE];
     let cells: [Cell<3, 1>; 3] = core::array::from_fn(|_| Cell::any(1));
